@@ -10,8 +10,9 @@ RULE = ('complete table: every assignment of {absent,@,!,role:r} to the names '
         '{x,y,default} (64 rule sets, including the empty set) x 10 ways of '
         'configuring the default rule (unset; constructor name y/nope/default; '
         'constructor check object @/!/role:r; option policy_default_rule '
-        'y/nope/empty) x 3 delivery routes (constructor rules=, set_rules, '
-        'policy file) x queried name in {x,y,default,zz} x roles in {{}, {r}} '
+        'y/nope/empty/None) x 5 delivery routes (constructor rules=, '
+        'set_rules, policy file, and the first two with a Rules object that '
+        'carries a default rule of its own) x queried name in {x,y,default,zz} x roles in {{}, {r}} '
         'x do_raise off/on; case = one (rule set, configuration, route); '
         'non-trivial = rule set non-empty and a queried name undefined.')
 ASSUMPTIONS = ['R-store reference model below, written from the property text',
@@ -23,12 +24,15 @@ QUERIES = ('x', 'y', 'default', 'zz')
 CONFIGS = [('unset', None), ('ctor-name', 'y'), ('ctor-name', 'nope'),
            ('ctor-name', 'default'), ('ctor-check', '@'), ('ctor-check', '!'),
            ('ctor-check', 'role:r'), ('option', 'y'), ('option', 'nope'),
-           ('option', '')]
-ROUTES = ('ctor', 'set_rules', 'file')
+           ('option', ''), ('option', None)]
+# '+own': the rule set arrives as a Rules object that carries a default rule
+# of its own (an allowing, defined name where there is one) - the enforcer's
+# configuration must still be what decides
+ROUTES = ('ctor', 'set_rules', 'file', 'ctor+own', 'set_rules+own')
 
 
 def bound(tier):
-    return {'rule_sets': 64, 'configs': len(CONFIGS), 'routes': 3,
+    return {'rule_sets': 64, 'configs': len(CONFIGS), 'routes': len(ROUTES),
             'queries': 4, 'creds': 2}
 
 
@@ -85,12 +89,18 @@ def build(P, parse_rule, ruleset, cfg, route, w):
         conf = world.new_conf(w.root, **overrides)
         return P.Enforcer(conf, **kw)
     conf = world.new_conf(**overrides)
-    if route == 'ctor':
-        return P.Enforcer(conf, use_conf=False,
-                          rules={k: parse_rule(v) for k, v in ruleset.items()},
-                          **kw)
+    own = None
+    if route.endswith('+own'):
+        allowing = [n for n, b in sorted(ruleset.items()) if b == '@']
+        own = (allowing or sorted(ruleset) or ['x'])[0]
+    if route.startswith('ctor'):
+        rules = {k: parse_rule(v) for k, v in ruleset.items()}
+        if own:
+            rules = P.Rules(rules, default_rule=own)
+        return P.Enforcer(conf, use_conf=False, rules=rules, **kw)
     enf = P.Enforcer(conf, use_conf=False, **kw)
-    enf.set_rules(P.Rules.from_dict(ruleset), use_conf=False)
+    enf.set_rules(P.Rules.from_dict(ruleset, default_rule=own),
+                  use_conf=False)
     return enf
 
 
